@@ -36,45 +36,62 @@ type pendingRestore struct {
 
 var errStream = errors.New("dsim: injected stream failure")
 
-// yieldingWriter hands control back to the scheduler between writes and can fail after a number of bytes (F11).
+// yieldingWriter hands control back to the scheduler between the first writes and can fail at a given write (F11).
+// Scheduling points and the failure are counted in WRITE CALLS, never in bytes: the physical size of a bolt file
+// (its high-water mark) is not a function of its logical content - the library walks Go maps while it writes, so
+// the same history can leave trees of slightly different shape - and the schedule must not depend on it. The
+// stream of any database has at least three writes (two meta pages, then the data in 32 KiB pieces).
 type yieldingWriter struct {
-	t       *Task
-	buf     bytes.Buffer
-	failAt  int // <0: never
-	written int
-	yield   bool
-	failed  bool
+	t      *Task
+	buf    bytes.Buffer
+	failAt int // <0: never; otherwise the write call (0, 1, 2) that fails
+	calls  int
+	yield  bool
+	failed bool
 }
 
+const streamYields = 3
+
 func (w *yieldingWriter) Write(p []byte) (int, error) {
-	if w.failAt >= 0 && w.written+len(p) > w.failAt {
+	call := w.calls
+	w.calls++
+	if w.failAt >= 0 && call >= w.failAt {
 		w.failed = true
 		return 0, errStream
 	}
-	if w.yield {
+	if w.yield && call < streamYields {
 		w.t.Yield("snapshot.write", NeedNone)
 	}
-	w.written += len(p)
 	return w.buf.Write(p)
 }
 
+// yieldingReader: the first `yields` reads deliver one 4 KiB page each with a scheduling point before them (so that
+// transactions run while the temp file is being written), the rest is delivered without further scheduling points;
+// failAt counts READ CALLS (see yieldingWriter: nothing may depend on the byte size). Every snapshot is longer
+// than 3 pages, so a failure at read 1 or 2 is always mid-stream.
 type yieldingReader struct {
 	t      *Task
 	data   []byte
 	pos    int
-	chunk  int
-	failAt int // <0 never: fail once pos >= failAt
+	calls  int
+	yields int
+	failAt int // <0 never: the read call that fails
 }
 
 func (r *yieldingReader) Read(p []byte) (int, error) {
-	if r.failAt >= 0 && r.pos >= r.failAt {
+	call := r.calls
+	r.calls++
+	if r.failAt >= 0 && call >= r.failAt {
 		return 0, errStream
 	}
 	if r.pos >= len(r.data) {
 		return 0, io.EOF
 	}
-	r.t.Yield("restore.read", NeedNone)
-	n := r.chunk
+	n := len(p)
+	if call < r.yields {
+		r.t.Yield("restore.read", NeedNone)
+		n = 4096
+	}
 	if n > len(p) {
 		n = len(p)
 	}
@@ -120,6 +137,12 @@ func (r *Run) execSnapshot(t *Task, idx int, tx *TxPlan) {
 			panic(abortSig{})
 		}
 		rec.id, rec.data = id, data
+		if traceHooks {
+			fi, _ := os.Stat(r.path)
+			var hw int64
+			_ = r.db.View(func(tx *bbolt.Tx) error { hw = tx.Size(); return nil })
+			fmt.Printf("TRACE snapshot path=%s actual=%s len=%d mainfile=%d txsize=%d dump=%x\n", path, actual, len(data), fi.Size(), hw, dump.Hash)
+		}
 		rec.meta.SnapshotId = &id
 		rec.meta.Reset = true
 		r.probe("snapshot_file")
@@ -130,7 +153,7 @@ func (r *Run) execSnapshot(t *Task, idx int, tx *TxPlan) {
 			// F11: the writer failed: the error must come back, nothing may have changed
 			r.bump(&r.res.FaultsHit, "F11-writer")
 			if err == nil {
-				r.snapViolation("stream-error-swallowed", "StreamToWriter returned nil although the writer failed after %d bytes", tx.N)
+				r.snapViolation("stream-error-swallowed", "StreamToWriter returned nil although write call %d failed", tx.N)
 			}
 			r.mu.Lock()
 			r.forceChk = true
@@ -166,7 +189,7 @@ func (r *Run) execRestore(t *Task, idx int, tx *TxPlan) {
 	r.mu.Unlock()
 	failAt := -1
 	if len(tx.Args) > 0 && tx.Args[0] == "fail" {
-		failAt = len(rec.data) / 2
+		failAt = 1 + (idx/4)%2 // never beyond the reads that deliver a single page: the stream is longer than that
 	}
 	panicked := false
 	var pv any
@@ -186,8 +209,7 @@ func (r *Run) execRestore(t *Task, idx int, tx *TxPlan) {
 		if tx.Arg == "bytes" && failAt < 0 {
 			r.db.RestoreSnapshot(rec.data)
 		} else {
-			chunk := 4096 * (1 + idx%4)
-			r.db.RestoreFromReader(&yieldingReader{t: t, data: rec.data, chunk: chunk, failAt: failAt})
+			r.db.RestoreFromReader(&yieldingReader{t: t, data: rec.data, yields: 2 + idx%4, failAt: failAt})
 		}
 	}()
 	r.mu.Lock()
